@@ -61,6 +61,11 @@ class C04(F.Spec):
             yield self.scripted("late-data-%d" % k, ["start", "gotip", "dnsok", "connect", "iterate", "iterate", "regrefused", "iterate", "stop",
                                                     "latedata", "local", "start", "gotip", "dnsok", "connect", "iterate", "iterate", "local",
                                                     "iterate", "local", "regok", "local"], C.Rng(100 + k))
+        # account e-mails up to the size of the field (255 characters): the registration carries them whole
+        for k, n in enumerate([64, 65, 100, 255]):
+            c = self.scripted("long-email-%d" % k, ["start", "gotip", "dnsok", "connect", "iterate", "iterate", "regok", "local"], C.Rng(7 + k))
+            c.ops.insert(0, "email " + ("a" * (n - 12) + "@example.org"))
+            yield c
         for i in range(150 if tier == "quick" else 1500):
             yield self.scripted("gen%d" % i, self.walk_events(rng, rng.randint(6, 45)), rng)
         for i in range(20 if tier == "quick" else 150):
@@ -351,7 +356,8 @@ class C04(F.Spec):
                 fs.append(F.Finding("first-frame-not-registration", "connection opened at op %d: first frame is call %d" % (e["start"], call0)))
             elif pl0 is not None:
                 # TDS_SuplaRegisterDevice_E: Email[256] AuthKey[16] GUID[16] Name SoftVer ServerName ... channels
-                if pl0[:17] != b"user@example.org\0" or pl0[256:272] != bytes(0x40 + i for i in range(16)) \
+                mail = next((o.split()[1].encode() for o in case.ops if o.startswith("email ")), b"user@example.org") + b"\0"
+                if pl0[:len(mail)] != mail or pl0[256:272] != bytes(0x40 + i for i in range(16)) \
                         or pl0[272:288] != bytes(0x10 + i for i in range(16)) or b"srv.example\0" not in pl0[288:] \
                         or b"VERIF-BOARD\0" not in pl0[288:]:
                     fs.append(F.Finding("registration-content", "registration does not carry the configured GUID/AuthKey/e-mail/server"))
@@ -373,8 +379,16 @@ class C04(F.Spec):
                     fs.append(F.Finding("traffic-after-refusal", "call %d sent at op %d after the registration was refused" % (later[0][1], later[0][0])))
         # refusal -> the client stops and closes: when the stop timer has run, started=0, no protocol instance, DISCONNECT issued
         refused_open = False
+        halted = False          # the registration was refused and the stop has run: the client stays stopped until it is started again
         for op, g in zip(case.ops, raw):
             t = op.split()
+            if t[0] == "netstart" or (t[0] == "fire" and t[1] == "recon" and "NOTARMED" not in g) or \
+                    any(x.startswith("DCSTATE") and "started=1" in x for x in g):
+                halted = False       # started again (also by a reconnect timer that an earlier disconnect had armed)
+            if halted and t[0] in ("gotip", "wifi") and any(x.startswith(("GETHOST", "CONNECT ")) for x in g):
+                fs.append(F.Finding("reconnect-after-refusal", "the registration was refused and the client stopped, yet at '%s' it resolves / "
+                                    "connects again without having been started" % op[:40]))
+                halted = False
             if t[0] == "recv" and any(x.startswith("GETDATA 70 1") for x in g):
                 pl = bytes.fromhex(t[1])
                 if len(pl) >= 22 and struct.unpack("<i", pl[18:22])[0] != 3:
@@ -387,6 +401,7 @@ class C04(F.Spec):
                 refused_open = False
             fired = (t[0] == "fire" and t[1] == "stop" and "NOTARMED" not in g) or (t[0] == "adv" and int(t[1]) >= 10)
             if refused_open and fired:
+                halted = any(x.startswith("DCSTATE started=0") for x in g)
                 st = [x for x in g if x.startswith("DCSTATE")]
                 if not any(x.startswith("DISCONNECT") for x in g):
                     fs.append(F.Finding("refusal-connection-not-closed", "the registration was refused but the connection was not closed"))
